@@ -42,19 +42,22 @@ package lq
 //@ func (*LQClient).Add
 //@   property C15
 //@   requires globalLQ != nil && globalLQ.client != nil && globalLQ.client.dbWrite != nil && globalLQ.client.dbWriteSqlc != nil
-//@   modifies dbAddN, dbAddID, dbAddValue, dbAddVia, dbAddHops, sqlCommits
+//@   modifies dbAddN, dbAddID, dbAddValue, dbAddVia, dbAddHops, dbAddFailed, dbAddErrText, sqlCommits, sqlBegun, sqlCommitTried
 //@   let adds0 = sqlc_model.nAdds()
 //@   let commits0 = sql.nCommits()
+//@   let begun0 = sql.nBegun()
+//@   let tried0 = sql.nCommitTried()
 //@   loop range invariant [offered] -1 <= rangeindex && rangeindex < len(urls) && sqlc_model.nAdds() == adds0 + rangeindex + 1 && sql.nCommits() == commits0
 //@   loop range invariant [record] rangeindex >= 0 ==> sqlc_model.lastAdd(urls[rangeindex].Value, urls[rangeindex].Via, urls[rangeindex].Hops) && (urls[rangeindex].ID != "" ==> sqlc_model.lastAddID() == urls[rangeindex].ID) // C15: handed to the queue (local database) with its text unchanged, its parent page as 'via' and its hop count
 //@   ensures [all-offered] result == nil ==> sqlc_model.nAdds() == adds0 + len(urls) // C15: every outlink the pipeline discovers is handed to the queue
+//@   ensures [dup-tolerated] sql.nBegun() == begun0 + 1 && sqlc_model.nAdds() == adds0 + len(urls) && (len(urls) == 0 || !sqlc_model.lastAddFailed() || sqlc_model.lastAddErrText() == "sqlite3: constraint failed: UNIQUE constraint failed: urls.value") ==> sql.nCommitTried() == tried0 + 1 // C15: every outlink the pipeline discovers is handed to the queue (a row the queue already holds does not make the batch fail: once every row was offered the transaction is committed)
 //@   ensures [committed] (result == nil ==> sql.nCommits() == commits0 + 1) && (result != nil ==> sql.nCommits() == commits0) // nil result = committed, error = nothing committed
 
 // Delete: every finished seed of the batch is deleted by its id; nil result = all of them, committed.
 //@ func (*LQClient).Delete
 //@   property C15
 //@   requires globalLQ != nil && globalLQ.client != nil && globalLQ.client.dbWrite != nil && globalLQ.client.dbWriteSqlc != nil
-//@   modifies dbDelN, dbDelID, sqlCommits
+//@   modifies dbDelN, dbDelID, sqlCommits, sqlBegun, sqlCommitTried
 //@   let dels0 = sqlc_model.nDeletes()
 //@   let commits0 = sql.nCommits()
 //@   loop range invariant [offered] -1 <= rangeindex && rangeindex < len(urls) && sqlc_model.nDeletes() == dels0 + rangeindex + 1 && sql.nCommits() == commits0
@@ -67,7 +70,7 @@ package lq
 //@ func (*LQClient).Get
 //@   property C15
 //@   requires globalLQ != nil && globalLQ.client != nil && globalLQ.client.dbWrite != nil && globalLQ.client.dbWriteSqlc != nil
-//@   modifies dbClaimN, dbClaimID, dbFreshLimit, dbFreshArr, dbFreshLen, sqlCommits
+//@   modifies dbClaimN, dbClaimID, dbFreshLimit, dbFreshArr, dbFreshLen, sqlCommits, sqlBegun, sqlCommitTried
 //@   let claims0 = sqlc_model.nClaims()
 //@   let commits0 = sql.nCommits()
 //@   loop range invariant [claimed] -1 <= rangeindex && rangeindex < len(freshUrls) && sqlc_model.nClaims() == claims0 + rangeindex + 1 && sql.nCommits() == commits0 && sqlc_model.lastFresh(freshUrls) && sqlc_model.lastFreshLimit() == int64(limit)
@@ -77,20 +80,33 @@ package lq
 //@   ensures [error] result1 != nil ==> len(result0) == 0
 
 // ---------------------------------------------------------------------------------------
-// C15 (b): finisherReceiver - the acknowledgement row of a finished seed carries the seed's id.
-// (No batching invariants: item.Traverse(closure) is a higher-order call whose frame the
-// engine cannot express; everything is havocked after it.)
+// C15 (b): finisherReceiver - the acknowledgement row of a finished seed carries the seed's id,
+// and the batching conserves rows like producerReceiver: every row received is in the batch
+// being filled or was handed to the dispatcher, and the batch being filled never shares its
+// backing array with the batch handed over last (which may still be waiting for a retry).
+// item.Traverse(closure) is used by contract (models: modifies effects(fn)).
+//@ ghost var frRecv int
+//@ ghost var frHanded int
+//@ ghost var frLastSent mathint
 //@ func finisherReceiver
 //@   property C15
-//@   requires globalLQ != nil
+//@   requires globalLQ != nil && config.config != nil
+//@   requires frRecv == 0 && frHanded == 0 && frLastSent == 0
+//@   after selrecv(finishCh)#1: frRecv = frRecv + 1
+//@   after selsend(batchCh)#1: frHanded = frHanded + len(batch.URLs); frLastSent = arrof(batch.URLs)
+//@   after selsend(batchCh)#2: frHanded = frHanded + len(batch.URLs); frLastSent = arrof(batch.URLs)
 //@   assert Traverse(item)#1: [ack-id] URL.ID == item.id // C15: every finished seed is acknowledged to the queue by its id
+//@   loop for modifies frRecv, frHanded, frLastSent
+//@   loop for invariant [conserved] frRecv == frHanded + len(batch.URLs) && batch != nil // C15: every finished seed is acknowledged to the queue
+//@   loop for invariant [size-trigger] 0 <= len(batch.URLs) && (len(batch.URLs) < batchSize || len(batch.URLs) == 0)
+//@   loop for invariant [unshared] arrof(batch.URLs) != frLastSent && (frLastSent == 0 || allocated(frLastSent)) // C15: a batch waiting for its retry is not overwritten by the batch being filled
 
 // C15 (c): finisherSender retries Delete until it succeeds or the context is cancelled; every
 // attempt is a Delete of the whole batch (Delete's contract above: all ids, committed).
 //@ func finisherSender
 //@   property C15
 //@   requires globalLQ != nil && globalLQ.client != nil && globalLQ.client.dbWrite != nil && globalLQ.client.dbWriteSqlc != nil && batch != nil
-//@   modifies dbDelN, dbDelID, sqlCommits
+//@   modifies dbDelN, dbDelID, sqlCommits, sqlBegun, sqlCommitTried
 //@   let urls0 = batch.URLs
 //@   let dels0 = sqlc_model.nDeletes()
 //@   let commits0 = sql.nCommits()
